@@ -40,6 +40,7 @@ NAME_POOL = [
     ("1abc", False), ("a-b", False), ("a b", False), ("", False), ("foo\n", False), ("foo\n\n", False), ("\nfoo", False),
     ("a\tb", False), ("foo ", False), (" foo", False), (".a", False), ("a/b", False), ("a$", False), ("a*", False),
     ("ünï", None), ("aé", None), ("Ω", None), ("á", None), ("foo\r", False), ("foo\x00", False), ("a;b", False), ("-a", False),
+    ("ta\u017fk", None), ("tas\u212a", None), ("\u0130x", None), ("x\u0131", None), ("a\u00df", None), ("\u00e9", None),
 ]
 NONSTR_NAMES = ["5", "None", "3.5", "['a']", "b'foo'"]
 PATH_POOL = [
@@ -77,7 +78,7 @@ def gen_case(rng, idx, tier):
         return {"lane": "paths", "expr": pe, "expect": ok, "where": rng.choice(["inputs", "outputs", "working_dir"]), "route": rng.choice(["Target", "target", "template"])}
     return {
         "lane": "map",
-        "naming": rng.choice(["default_fn", "default_cls", "string", "function"]),
+        "naming": rng.choice(["default_fn", "default_cls", "string", "function", "function_dup"]),
         "items": rng.choice(["str", "tuple", "dict"]),
         "n": rng.randint(0, 7),
         "extra": rng.random() < 0.3,
@@ -137,6 +138,18 @@ def run_names(case):
         accepted = False
         err = repr(e)
     res.mon("names_checked")
+    if want is None and isinstance(nm, str) and route in ("Target", "target", "template") and name_ok("".join(c if ord(c) < 128 else "a" for c in nm)):
+        # non-ASCII LETTERS in an otherwise valid name: either policy is fine, but it has to be one policy -
+        # the decision must equal the one taken for the reference name 'a\u00e9'
+        if all(c.isalpha() or ord(c) < 128 for c in nm):
+            try:
+                inproc.gwf.core.Target(name="a\u00e9", inputs=[], outputs=[], options={}, working_dir="/tmp")
+                ref = True
+            except Exception:  # noqa: BLE001
+                ref = False
+            res.mon("unicode_consistency_checked")
+            if accepted != ref:
+                res.violation("name-unicode-inconsistent", "name %r accepted=%s although the non-ASCII letter name 'a\u00e9' accepted=%s: non-ASCII letters are not treated uniformly" % (nm, accepted, ref))
     if want is not None and accepted != want:
         mech = "name-trailing-newline" if (isinstance(nm, str) and nm.endswith("\n") and accepted) else "name-validation"
         res.violation(mech, "name %r via %s: accepted=%s, expected %s" % (nm, route, accepted, want))
@@ -219,12 +232,25 @@ def run_map(case):
         name = "custom"
     elif case["naming"] == "function":
         name = lambda idx, t: "f%d_%s" % (idx, len(t.outputs))  # noqa: E731
+    elif case["naming"] == "function_dup":
+        name = lambda idx, t: "same_%d" % (idx // 2)  # noqa: E731  (two items share a name: must be rejected)
 
     def build():
         wf = inproc.Workflow(working_dir="/tmp")
         out = wf.map(func, items, extra=extra, name=name)
         return wf, out
 
+    if case["naming"] == "function_dup":
+        res.mon("maps_checked")
+        res.sig = ("map", case["naming"], case["items"], n, case["extra"])
+        res.nontrivial = n >= 2
+        try:
+            wf, out = build()
+        except Exception:  # noqa: BLE001
+            return res  # rejected at definition: fine
+        if n >= 2:
+            res.violation("duplicate-name-accepted", "map with a naming function that returns the same name for two items was accepted: %d items, %d targets in the workflow, names %s" % (n, len(wf.targets), [t.name for t in out]))
+        return res
     try:
         wf1, out1 = build()
         wf2, out2 = build()
